@@ -22,6 +22,10 @@ func c05eval(a *arithParsers, raw string, before []string) (v interface{}, err e
 	}
 	f := text.NewFile("f", []byte(raw))
 	ctx := parsley.NewContext(fs, placeFile(fs, f, (len(raw)+len(before))%2 == 1))
+	// the earlier inputs of the set were evaluated (and their errors rendered) before this one
+	for p := 1; p < int(f.Pos(0)); p += 3 {
+		_ = fs.Position(parsley.Pos(p)).String()
+	}
 	func() {
 		defer func() {
 			if e := recover(); e != nil {
